@@ -7,6 +7,7 @@ import AfkakProofs.Group.HbStable
 import AfkakProofs.Group.Compose
 import AfkakProofs.Group.StopCalled
 import AfkakProofs.Group.JoinLast
+import AfkakProofs.Group.JoinIds
 import AfkakProps.Open.C16
 /-!
 # C16 — generation fencing: no partition consumer outlives its group generation
@@ -39,8 +40,7 @@ theorem C16_starts_committed (cfg : Cfg) (evs : List Ev) : startsCommitted (toMS
 
 /-- Every successful join reply the member processes replaces its member id and generation by the
     reply's, as seen in the snapshot after THAT step (monitor `joinAdopted` on every model trace).
-    That the ids are still the reply's when the consumers are started (nothing rewrites them between
-    the join and the sync reply) is the open statement `C16_starts_with_join_ids`. -/
+    That the ids are still the reply's when the consumers are started is `C16_starts_with_join_ids`. -/
 theorem C16_join_adopted (cfg : Cfg) (evs : List Ev) : joinAdopted (toMSteps (run cfg evs)) = true :=
   joinAdopted_run cfg evs
 
@@ -127,6 +127,15 @@ theorem C16_heartbeat_only_stable (cfg : Cfg) (evs : List Ev) : heartbeatOnlySta
     (`C16_after_stop_only_leave`, the reading the C16 text is checked under). -/
 theorem C16_no_join_after_stop_called (cfg : Cfg) (evs : List Ev) : noJoinAfterStopCalled (toMSteps (run cfg evs)) = true :=
   noJoinAfterStopCalled_run cfg evs
+
+/-- Consumers are started with exactly the member id and generation of the LAST processed successful
+    join reply — what the coordinator knows the member by (monitor `startsWithJoinIds`, which threads
+    that pair from the reply to every `consumerStart`).  Between the join reply and the sync reply of
+    a member that is not stopping nothing rewrites the ids: no heartbeat is outstanding (abandoned at
+    the join reply since fix 842f323, none sent while a rejoin is wanted), no consumer is live whose
+    error could clear the member id, and no `stop()` drain coexists with a join exchange. -/
+theorem C16_starts_with_join_ids (cfg : Cfg) (evs : List Ev) : startsWithJoinIds (toMSteps (run cfg evs)) = true :=
+  startsWithJoinIds_run cfg evs
 
 /-- Every heartbeat is sent by a member that is neither stopping nor wanting a rejoin, and quotes
     the member's CURRENT generation and member id (monitor `heartbeatIds`, with the snapshot before
@@ -237,9 +246,9 @@ C16_join_last
 C16_strict_after_stop_counterexample
 C16_graceful_drain_counterexample
 C16_no_join_after_stop_called
+C16_starts_with_join_ids
 -/
 /- OPEN_STATEMENTS
-C16_starts_with_join_ids
 C16_after_stop_called_only_leave
 C16_graceful_drain
 -/
